@@ -83,12 +83,13 @@ Definition status_code (s : status) : N :=
   | Done => 0
   | Failed IONotFound => 1
   | Failed RootLoadingPath => 4
+  | Failed IncludeCycle => 4
   | Failed Unsupported => 90
   | OutOfFuel => 91
   end.
 
 Definition model_obs (c : case) : lobs :=
-  let r := load (S (length (c_fs c))) (c_fs c) (c_root c) in
+  let r := loadc (S (S (length (c_fs c)))) (c_fs c) [] (c_root c) in
   LObs (map (fun d => (index_of (fst d) (c_fs c) 0, snd d)) (fst r)) (status_code (snd r)).
 
 (* known finding C11-K1 (known_findings.json, code 1): a pattern with a star between a separator
